@@ -129,6 +129,32 @@ Theorem C05_one_instruction : forall rs sep lang i b v v' b' s k n val,
       /\ ((exists sig mode, i = ICroak sig mode) \/ len (s_path (v_st v')) < n)).
 Proof. exact exec_instr_symbol_lemma. Qed.
 
+(* ... and along a run: one iteration of the loop leaves a live symbol in its scope (value possibly
+   RELOADed), or removes it — and then the stack is shorter than n, or stack and cache are out of
+   lock-step (CROAK resets the cache but not the stack: K-C08-croak) *)
+Theorem C05_one_iteration : forall rs sep lang b v k n val,
+  nav_inv (v_st v) (v_ca v) -> lives (v_ca v) k = Some (n, val) ->
+  let vo := step_machine (run_step rs sep lang b v) in
+  (exists val', lives (v_ca vo) k = Some (n, val'))
+  \/ (lives (v_ca vo) k = None /\ (len (s_path (v_st vo)) < n \/ ~ nav_inv (v_st vo) (v_ca vo))).
+Proof. exact step_symbol_lemma. Qed.
+
+(* a run that stays at or below level n (reaches_within: every configuration it passes through has
+   at least n nodes on the stack and the lock-step invariant) keeps the symbol visible in scope n
+   at every configuration, so a LOAD of it anywhere on the way calls nothing: at most one call
+   while visible, for whole runs *)
+Theorem C05_run_keeps_symbol_visible : forall rs sep n k c c',
+  reaches_within rs sep n c c' ->
+  forall val, nav_inv (v_st (snd c)) (v_ca (snd c)) -> lives (v_ca (snd c)) k = Some (n, val) ->
+  exists val', lives (v_ca (snd c')) k = Some (n, val').
+Proof. exact run_symbol_visible_lemma. Qed.
+
+Theorem C05_run_load_once : forall rs sep n k c l' b' v' val rs2 lang2 sz b2,
+  reaches_within rs sep n c (l', b', v') ->
+  nav_inv (v_st (snd c)) (v_ca (snd c)) -> lives (v_ca (snd c)) k = Some (n, val) ->
+  run_load rs2 lang2 k sz b2 v' = (v', b2, SOk).
+Proof. exact run_load_once_lemma. Qed.
+
 (* ---- RELOAD ---------------------------------------------------------------------------------- *)
 (* one call; the update is attempted with the result; accepted: value replaced IN ITS SCOPE (n is
    unchanged), limit kept and respected, other symbols untouched; refused: the cache is what it
@@ -298,6 +324,27 @@ Example C05_lifetime_hypotheses :
       keeps_scope (s2b "aa") 2 ca ops = true /\ cache_get (cache_run ca ops) (s2b "aa") = Ok (s2b "one")).
 Proof. vm_compute. repeat split; reflexivity. Qed.
 
+(* the hypotheses of the run-level theorems: the main run of the request "1" (root -> foo); after
+   two iterations (INCMP fired, first LOAD aa stored) aa lives in scope 2 under the lock-step
+   invariant; the next two iterations (second LOAD aa, MAP aa) stay within level 2 *)
+Example C05_run_hypotheses :
+  let rs := app_rsrc ex_app_scope in
+  let '(e1, _) := request_long ex_fuel rs ex_cfg (ex_e0 ex_cfg) [] in
+  match ex_exec_conf rs ex_cfg e1 (s2b "1") with
+  | Some c0 =>
+    match iter_step 2 rs [] c0 with
+    | Some c1 =>
+      nav_inv_b (v_st (snd c1)) (v_ca (snd c1)) = true
+      /\ lives (v_ca (snd c1)) (s2b "aa") = Some (2, s2b "one")
+      /\ option_map (fun c : option bytes * bytes * vmst => (parse_all (snd (fst c)), lives (v_ca (snd c)) (s2b "aa"), func_count (v_log (snd c))))
+           (iter_within 2 2 rs [] c1)
+         = Some (Ok [IHalt; IInCmp (s2b "_") (s2b "0"); IInCmp (s2b "bar") (s2b "2")], Some (2, s2b "one"), 1%nat)
+    | None => False
+    end
+  | None => False
+  end.
+Proof. vm_compute. repeat split; reflexivity. Qed.
+
 (* RELOAD under limit 5: the empty result replaces the value; an over-limit result (7 bytes, and
    65541 bytes) is dropped and the old value stays mapped; a fitting one replaces it *)
 Example C05_reload_cases :
@@ -331,6 +378,9 @@ Print Assumptions C05_gone_after_ascent_step.
 Print Assumptions C05_gone_after_ascent.
 Print Assumptions C05_reload_after_return.
 Print Assumptions C05_one_instruction.
+Print Assumptions C05_one_iteration.
+Print Assumptions C05_run_keeps_symbol_visible.
+Print Assumptions C05_run_load_once.
 Print Assumptions C05_reload_replaces.
 Print Assumptions C05_reload_update_cases.
 Print Assumptions C05_map_until_next_move_partial.
